@@ -799,7 +799,7 @@ func twoDenomWorker(res *engine.Result, tier string, shard, n int) {
 
 func bounds(tier string) (int, time.Duration) {
 	if tier == "thorough" {
-		return 4, 25 * time.Minute
+		return 4, 75 * time.Minute
 	}
 	return 3, 5 * time.Minute
 }
